@@ -221,10 +221,12 @@ package memfs
 
 //@ func (*dirNode).addChild
 //@   requires wheld(dn.mu) && child != nil
+//@   modifies dn.children, dn.children[*]
 //@   ensures[C05] dom(dn.children, name) && dn.children[name] == child
 //@   ensures[C05] forall n string :: n != name ==> dom(dn.children, n) == old(dom(dn.children, n)) && dn.children[n] == old(dn.children[n])
 
 //@ func (*dirNode).removeChild
 //@   requires wheld(dn.mu)
+//@   modifies dn.children[*]
 //@   ensures[C05] !dom(dn.children, name)
 //@   ensures[C05] forall n string :: n != name ==> dom(dn.children, n) == old(dom(dn.children, n)) && dn.children[n] == old(dn.children[n])
